@@ -655,31 +655,35 @@ theorem join_images_preserves_export (i : Img) (hv : i.validate = .ok ()) (ha : 
 theorem join_images_error (i : Img) (e : PyErr) : i.joinImages = .error e ↔ i.export = .error e :=
   joinImages_error i e
 
-/-- `get_image_by_absolute_address` as it is written NOW: the image returned is a descendant reached through the returned
-    path, at the returned offset, and the address lies in its range with the END ADDRESS INCLUDED.
-    Full strength (`addr < i.offset + o + d.len`) is false on the pinned tree - open finding C16-address-one-past-end,
-    proposed_fixes/C16-3.diff - see `get_by_address_contains_partial` and `get_by_address_strict_iff`. -/
+/-- `get_image_by_absolute_address` (as repaired by e6ec992, `>=`): the image returned is a descendant reached through the
+    returned path, at the returned offset, and it CONTAINS the address - full strength -/
 theorem get_by_address_sound (i : Img) (addr : Nat) (path : List Nat) (o : Nat) (d : Img)
     (h : i.getByAddr addr = .ok (path, o, d)) :
-    SubAt i o d ∧ atPath path i = some d ∧ pathOffset path i = o ∧ i.offset + o ≤ addr ∧ addr ≤ i.offset + o + d.len :=
+    SubAt i o d ∧ atPath path i = some d ∧ pathOffset path i = o ∧ i.offset + o ≤ addr ∧ addr < i.offset + o + d.len :=
   getByAddr_sound i addr path o d h
 
-/-- the image found contains the address, unless the address is the found image's end address -/
-theorem get_by_address_contains_partial (i : Img) (addr : Nat) (path : List Nat) (o : Nat) (d : Img)
-    (h : i.getByAddr addr = .ok (path, o, d)) (hne : addr ≠ i.offset + o + d.len) :
-    i.offset + o ≤ addr ∧ addr < i.offset + o + d.len :=
-  getByAddr_contains_partial i addr path o d h hne
+/-- the image found contains the address (formerly `_partial`, with the hypothesis "not the end address of the image found";
+    the hypothesis is gone with the repair) -/
+theorem get_by_address_contains (i : Img) (addr : Nat) (path : List Nat) (o : Nat) (d : Img)
+    (h : i.getByAddr addr = .ok (path, o, d)) : i.offset + o ≤ addr ∧ addr < i.offset + o + d.len :=
+  (getByAddr_sound i addr path o d h).2.2.2
 
-/-- the current search and the "contains the address" search (`>=`) agree exactly off the end address of the found image -/
+/-- what the repair changed, exactly: the pre-fix search (`getByAddrLax`, `>`) and the present one agree on an address unless
+    it is the END address of the image the pre-fix search stopped at -/
 theorem get_by_address_strict_iff (i : Img) (addr : Nat) (path : List Nat) (off : Nat) (d : Img)
-    (h : i.getByAddr addr = .ok (path, off, d)) :
-    i.getByAddrStrict addr = .ok (path, off, d) ↔ addr ≠ i.offset + off + d.len :=
-  getByAddr_strict_iff i addr path off d h
+    (h : i.getByAddrLax addr = .ok (path, off, d)) :
+    i.getByAddr addr = .ok (path, off, d) ↔ addr ≠ i.offset + off + d.len :=
+  getByAddrLax_strict_iff i addr path off d h
 
-/-- it refuses only addresses outside the root's (inclusive) range, and only with an SPSDK error -/
+/-- it refuses only addresses outside the root (`[offset, offset + len)`), only with an SPSDK error, and answers every
+    address inside the root -/
 theorem get_by_address_error (i : Img) (addr : Nat) (e : PyErr) (h : i.getByAddr addr = .error e) :
-    e = .spsdk ∧ (addr < i.offset ∨ i.offset + i.len < addr) :=
+    e = .spsdk ∧ (addr < i.offset ∨ i.offset + i.len ≤ addr) :=
   getByAddr_error i addr e h
+
+theorem get_by_address_total (i : Img) (addr : Nat) (h1 : i.offset ≤ addr) (h2 : addr < i.offset + i.len) :
+    ∃ r, i.getByAddr addr = .ok r :=
+  getByAddr_ok_of_range i addr h1 h2
 
 /-- the reachability relation of `get_image_by_absolute_address` is the one of `export_desc_at`: the bytes of the image
     found sit at the returned offset of the root's export -/
